@@ -1399,8 +1399,8 @@ fn run(cfg: &Cfg) -> Report {
     rep.extra.insert("u1_size".into(), json!(u1.len()));
     // In-situ invariant sweep: the well-formedness invariant evaluated on live analysis states at the quiescent
     // point "pointer-inference fixpoint finished" (programs and pipeline of the C13 workload).
-    let shards = cfg.tier.pick(64usize, 512usize);
-    let per_shard = cfg.tier.pick(8usize, 24usize);
+    let shards = cfg.tier.pick(64usize, 256usize);
+    let per_shard = cfg.tier.pick(8usize, 12usize);
     let insitu = par_shards(cfg, "c02-insitu", shards, |idx, rng, rep| {
         for i in 0..per_shard {
             let optimize = (idx + i) % 2 == 0;
